@@ -32,6 +32,7 @@ pub fn s_strip_prefix_char(s: &str) -> Option<&str> { s.strip_prefix(' ') }
 pub fn s_trim_end_crlf(s: &str) -> &str { s.trim_end_matches("\r\n") }
 pub fn s_trim_start_sp(s: &str) -> &str { s.trim_start_matches(' ') }
 pub fn s_trim_end_sp(s: &str) -> &str { s.trim_end_matches(' ') }
+pub fn s_trim_start_zero_str(s: &str) -> &str { s.trim_start_matches("0") }
 pub fn s_eq_ic(s: &str) -> bool { s.eq_ignore_ascii_case("tcp4") }
 pub fn s_is_ascii(s: &str) -> bool { s.is_ascii() }
 pub fn s_parse_u8(s: &str) -> Option<u8> { s.parse::<u8>().ok() }
